@@ -115,6 +115,9 @@ class LBCheck(BaseCheck):
       chans = w.heap_channels()
       return {'chans': chans, 'states': {c: c._state for c in chans},
               'out': {c: w.model_out(c) for c in chans},
+              # requests whose completion is being processed right now (this dispatch is issued from
+              # inside it): the balancer may or may not have released them yet
+              'completing': {c: sum(1 for r_ in w.completing if r_['channel'] is c and not r_['deliveries']) for c in chans},
               'marked': {n.channel: n.load >= 0 for n in lb._heap[1:]},
               'size': len(chans), 'heap': heap_dump()}
 
@@ -168,7 +171,7 @@ class LBCheck(BaseCheck):
                   'in use' % (req['id'], ch, len(open_p0)), {}, {'P0': [repr(c) for c in P0]})
         else:
           least = min(pre['out'][c] for c in open_p0)
-          mine = pre['out'].get(ch, 0)
+          mine = pre['out'].get(ch, 0) - pre['completing'].get(ch, 0)
           if mine > least:
             violate('dispatch:not-least-loaded',
                     'request %d went to %r with %d outstanding while an open member had %d' % (
